@@ -82,6 +82,25 @@ def members_with_inherited(env, t):
 AP_KINDS = {"string": "s", "integer": "i", "boolean": "b", "null": "n", "object": "o", "array": "a"}
 
 
+BARE_KEY_TYPE_IS_LITERAL = [False]
+
+
+def accepts_pinned(env, node, d):
+    BARE_KEY_TYPE_IS_LITERAL[0] = True
+    try:
+        return accepts(env, node, d)
+    finally:
+        BARE_KEY_TYPE_IS_LITERAL[0] = False
+
+
+def has_bare_key_type(env, node):
+    if node[0] == "obj":
+        return any((k.startswith("@") and env.get(k) == ("str", False)) or has_bare_key_type(env, x) for k, _, x in node[1])
+    if node[0] == "arr":
+        return any(has_bare_key_type(env, x) for x in node[1])
+    return False
+
+
 def accepts(env, node, d, fuel=60):
     if fuel <= 0:
         return False
@@ -129,7 +148,10 @@ def accepts(env, node, d, fuel=60):
         for kk, x in d[1]:
             m = [c for c in ms if c[0] == kk and not c[0].startswith("@")]
             if not m:                                # key shortcut @K: v admits any key accepted by the string type @K
-                m = [c for c in shortcuts if accepts(env, env[c[0]], ("s", json.dumps(kk)), fuel - 1)][:1]
+                if BARE_KEY_TYPE_IS_LITERAL[0]:   # the library's (pinned) reading: a key type that is a bare example stands for that very key
+                    m = [c for c in shortcuts if (kk == "s" if env[c[0]] == ("str", False) else accepts(env, env[c[0]], ("s", json.dumps(kk)), fuel - 1))][:1]
+                else:
+                    m = [c for c in shortcuts if accepts(env, env[c[0]], ("s", json.dumps(kk)), fuel - 1)][:1]
             if m:
                 if not accepts(env, m[0][2], x, fuel - 1):
                     return False
@@ -320,7 +342,11 @@ def rule_form_cases(rng, n):
             for d in SCALAR_PROBES:
                 docs.append(d if where == "root" else (("o", [("p", d)]) if where == "prop" else ("a", [d, ("i", str(lo))] if rng.random() < 0.3 else [d])))
         else:
-            K = rng.choice(["@R", "@S"])
+            # the key type in every form a string type can take: rules the object validator knows (regex, lengths), a plain string example, an alias, a union of
+            # string types, a {type: "@S"} reference
+            env["@P"] = ("str", False); env["@AL"] = ("ref", ["@S"], False); env["@SU"] = ("ref", ["@S", "@R"], False); env["@TS"] = ("tref", "@S", False, json.dumps("x" * l1))
+            names = names + ["@P", "@AL", "@SU", "@TS"]
+            K = rng.choice(["@R", "@S", "@R", "@S", "@P", "@AL", "@SU", "@TS"])
             v = rng.choice([("int", None, None, False), ("ref", ["@I"], False), ("strl", 1, 2)])
             addp = rng.choice([None, None, False, "boolean"])
             root = ("obj", [("a", rng.random() < 0.5, ("int", None, None, False)), (K, rng.random() < 0.5, v)], addp, [])
@@ -483,6 +509,7 @@ def run(ctx):
                          "them; documents = derived inhabitants and their mutations (drop/add/duplicate/reorder key, kind swap, null injection, array extend) and unrelated documents; verdict "
                          "against the denotational semantics of the statement (union of the named types, allOf = own + inherited requirements, additionalProperties decides unnamed keys); "
                          "non-trivial = document with a container validated against a schema with a union")
+    ctx.classifiers["bare_example_key_type"] = lambda case: isinstance(case, dict) and case.get("cls") == "bare-key-type"
     ctx.assumptions += ["decided by comparison with a python transcription of the statement's set semantics (differential), no Coq model of the multi-leaf validator: partial"]
     cases = []
     n = 4000 if quick else 20000
@@ -575,6 +602,8 @@ def run(ctx):
                 ctx.nontrivial.add(l[:200] + J.doc_wire(d))
             if ok != want and len(ctx.violations) < 40:
                 info = {"schema": c["schema"], "types": c["types"], "document": J.print_doc(d), "implementation": got, "expected": "accept" if want else "reject"}
+                if has_bare_key_type(env, root) and accepts_pinned(env, root, d) == ok:
+                    info["cls"] = "bare-key-type"      # differs from the statement only in the pinned reading of a bare-example key type
                 ctx.report("Validate(%s) says %s, the set semantics of the types say %s; schema %r types %r" % (J.print_doc(d)[:80], got, "accept" if want else "reject", c["schema"][:80],
                                                                                                                [t[1][:50] for t in c["types"]][:4]), "c03:" + l + J.doc_wire(d), info, case=info)
     if st.get("model"):
